@@ -24,10 +24,12 @@ Section InvAny.
     - rewrite (IH s N E). apply inv_iter_done. exact E.
   Qed.
 
-  Theorem inv_mod_any b0 : 0 <= b0 ->
-    0 <= inv_mod B b0 c < c /\ eqm c (inv_mod B b0 c * b0) (Z.gcd b0 c).
+  (* the state the loop ends in, for every b0 >= 0: coefficients are residues, a * b0 = a2 (mod c), a2 = gcd(b0, c) *)
+  Lemma inv_loop_final b0 : 0 <= b0 ->
+    let s := inv_iter (Z.to_nat (Z.log2_up B)) B c (MkIst 1 0 b0 c) in
+    0 <= i_a s < c /\ eqm c (i_a s * b0) (i_a2 s) /\ i_a2 s = Z.gcd b0 c.
   Proof.
-    intros Hb0. unfold inv_mod.
+    intros Hb0 s. subst s.
     assert (H0 : iinv c b0 (MkIst 1 0 b0 c)).
     { unfold iinv. cbn [i_a i_x i_a2 i_b2]. repeat split; try lia.
       - rewrite Z.mul_1_l. reflexivity.
@@ -40,36 +42,43 @@ Section InvAny.
       pose proof (Z.log2_up_spec B ltac:(lia)) as [_ Hl]. destruct H1 as (_ & _ & Hnn & _). lia. }
     destruct H1 as (Ha & _ & _ & Ha2 & Ea & _ & Eg).
     rewrite Hdone in Eg. rewrite Z.gcd_0_r in Eg. rewrite Z.abs_eq in Eg by lia.
-    split; [exact Ha|]. rewrite Ea, Eg. reflexivity.
+    split; [exact Ha|]. split; [exact Ea | exact Eg].
   Qed.
 
-  Lemma inv_mod_0 : inv_mod B 0 c = 0.
+  (* inv_mod as it is in /repo now (C06-14): the inverse for units, 0 for every non-invertible operand (0 included) *)
+  Theorem inv_mod_any b0 : 0 <= b0 ->
+    0 <= inv_mod B b0 c < c /\ (Z.gcd b0 c = 1 -> eqm c (inv_mod B b0 c * b0) 1) /\ (Z.gcd b0 c <> 1 -> inv_mod B b0 c = 0).
   Proof.
-    unfold inv_mod. rewrite inv_iter_one.
-    - unfold inv_step. cbn [i_a i_x i_a2 i_b2]. destruct (Z.eqb_spec c 0); [lia|]. reflexivity.
-    - cbn [i_b2]. lia.
-    - unfold inv_step. cbn [i_a i_x i_a2 i_b2]. destruct (Z.eqb_spec c 0); [lia|]. cbn [i_b2]. apply Z.mod_0_l. lia.
+    intros Hb0. destruct (inv_loop_final b0 Hb0) as (Ha & Ea & Eg). unfold inv_mod. cbv zeta.
+    set (s := inv_iter (Z.to_nat (Z.log2_up B)) B c (MkIst 1 0 b0 c)) in *. rewrite Eg.
+    destruct (Z.eqb_spec (Z.gcd b0 c) 1) as [E|N].
+    - split; [exact Ha|]. split; [intros _; rewrite Ea, Eg, E; reflexivity | intros H; contradiction].
+    - split; [lia|]. split; [intros H; contradiction | intros _; reflexivity].
   Qed.
 
-  Theorem inv_mod_eq0_iff b0 : 0 <= b0 < c -> (inv_mod B b0 c = 0 <-> b0 = 0).
+  Theorem inv_mod_eq0_iff b0 : 0 <= b0 -> (inv_mod B b0 c = 0 <-> Z.gcd b0 c <> 1).
   Proof.
-    intros Hb. split.
-    - intros E. destruct (inv_mod_any b0 ltac:(lia)) as [_ H]. rewrite E in H. rewrite Z.mul_0_l in H.
-      unfold eqm in H. rewrite Z.mod_0_l in H by lia. symmetry in H. apply Z.mod_divide in H; [|lia].
-      pose proof (Z.gcd_divide_l b0 c) as Hd. pose proof (Z.gcd_nonneg b0 c) as Hn.
-      destruct (Z.eq_dec b0 0) as [|N]; [assumption|]. exfalso.
-      assert (Hpos : 0 < Z.gcd b0 c).
-      { destruct (Z.eq_dec (Z.gcd b0 c) 0) as [E0|]; [|lia]. apply Z.gcd_eq_0_l in E0. lia. }
-      pose proof (Z.divide_pos_le _ _ Hpos H) as L1.
-      assert (Hb0 : 0 < b0) by lia. pose proof (Z.divide_pos_le _ _ Hb0 Hd) as L2. lia.
-    - intros ->. apply inv_mod_0.
+    intros Hb. destruct (inv_mod_any b0 Hb) as (_ & Hu & Hn). split.
+    - intros E Hg. specialize (Hu Hg). rewrite E in Hu. rewrite Z.mul_0_l in Hu. unfold eqm in Hu.
+      rewrite Z.mod_0_l, Z.mod_1_l in Hu by lia. discriminate.
+    - exact Hn.
+  Qed.
+
+  (* HISTORY: the body before C06-14 returned a Bezout coefficient for non-units: a * b0 = gcd(b0, c) (mod c) *)
+  Theorem inv_mod_old_any b0 : 0 <= b0 ->
+    0 <= inv_mod_old B b0 c < c /\ eqm c (inv_mod_old B b0 c * b0) (Z.gcd b0 c).
+  Proof.
+    intros Hb0. destruct (inv_loop_final b0 Hb0) as (Ha & Ea & Eg). unfold inv_mod_old. split; [exact Ha|]. rewrite Ea, Eg. reflexivity.
   Qed.
 End InvAny.
 
-(* the documentation of ruinvmod.h ("if b is not invertible, a = 0") does not hold for non-zero non-units *)
+(* the documentation of ruinvmod.h ("if b is not invertible, a = 0"): true of the body in /repo now, false of the body before C06-14 *)
 Definition inv_mod_nonunit_is_zero_stmt : Prop :=
   forall k c b, 1 < c < Bk k -> 0 <= b < c -> Z.gcd b c <> 1 -> inv_mod (Bk k) b c = 0.
-Lemma inv_mod_nonunit_is_zero_refuted : ~ inv_mod_nonunit_is_zero_stmt.
+Lemma inv_mod_nonunit_is_zero : inv_mod_nonunit_is_zero_stmt.
+Proof. intros k c b Hc Hb Hg. apply (inv_mod_any (Bk k) c Hc b ltac:(lia)). exact Hg. Qed.
+Lemma inv_mod_old_nonunit_is_zero_refuted :
+  ~ (forall k c b, 1 < c < Bk k -> 0 <= b < c -> Z.gcd b c <> 1 -> inv_mod_old (Bk k) b c = 0).
 Proof.
   intros H. specialize (H 0%nat 9 3 ltac:(split; [lia | reflexivity]) ltac:(lia) ltac:(vm_compute; discriminate)).
   vm_compute in H. discriminate.
@@ -119,37 +128,37 @@ Section MGAAny.
 
   Theorem mga_inv_any b : can b ->
     can (mga_inv k M b) /\ V (mga_inv k M b) = inv_mod B (V b) p /\
-    eqm p (V (mga_inv k M b) * V b) (Z.gcd (V b) p) /\ (mga_inv k M b = 0 <-> b = 0).
+    (Z.gcd (V b) p = 1 -> (V (mga_inv k M b) * V b) mod p = 1) /\ (mga_inv k M b = 0 <-> Z.gcd (V b) p <> 1).
   Proof.
     intros Hb. rewrite mga_inv_unfold. pose proof (V_can k p HM b Hb) as Cv.
-    destruct (inv_mod_any B p Hp (V b) ltac:(unfold canon in Cv; lia)) as [Ci Ei].
+    destruct (inv_mod_any B p Hp (V b) ltac:(unfold canon in Cv; lia)) as (Ci & Eu & En).
     destruct (mga_to_mg_ok k p HM (inv_mod B (V b) p)) as [C1 V1]. rewrite (Z.mod_small _ p Ci) in V1.
-    split; [exact C1|]. split; [exact V1|]. split; [rewrite V1; exact Ei|].
-    rewrite (mga_to_mg_eq0 _ Ci). rewrite (inv_mod_eq0_iff B p Hp (V b) Cv). apply mga_V_eq0. exact Hb.
+    split; [exact C1|]. split; [exact V1|]. split.
+    - intros Hg. rewrite V1. rewrite <- (Z.mod_1_l p) by lia. exact (Eu Hg).
+    - rewrite (mga_to_mg_eq0 _ Ci). apply (inv_mod_eq0_iff B p Hp (V b)). unfold canon in Cv. lia.
   Qed.
 
   Theorem mga_div_any a b : can a -> can b ->
     can (mga_div k M a b) /\
     V (mga_div k M a b) = (if inv_mod B (V b) p =? 0 then 0 else (V a * inv_mod B (V b) p) mod p) /\
-    eqm p (V (mga_div k M a b) * V b) (V a * Z.gcd (V b) p) /\ (b = 0 -> mga_div k M a b = 0).
+    (Z.gcd (V b) p = 1 -> (V (mga_div k M a b) * V b) mod p = V a) /\ (Z.gcd (V b) p <> 1 -> mga_div k M a b = 0).
   Proof.
     intros Ha Hb. destruct (mga_inv_any b Hb) as (Ci & Vi & Ei & Zi). unfold mga_div. cbv zeta.
-    pose proof (V_can k p HM b Hb) as Cv.
+    pose proof (V_can k p HM b Hb) as Cv. pose proof (V_can k p HM a Ha) as Cva.
     assert (Ez : (mga_inv k M b =? 0) = (inv_mod B (V b) p =? 0)).
-    { destruct (Z.eqb_spec (mga_inv k M b) 0) as [E|N]; destruct (Z.eqb_spec (inv_mod B (V b) p) 0) as [E'|N']; try reflexivity; exfalso.
-      - apply N'. apply (inv_mod_eq0_iff B p Hp (V b) Cv). apply mga_V_eq0; [exact Hb|]. apply Zi. exact E.
-      - apply N. apply Zi. apply (mga_V_eq0 b Hb). apply (inv_mod_eq0_iff B p Hp (V b) Cv). exact E'. }
+    { pose proof (inv_mod_eq0_iff B p Hp (V b) ltac:(unfold canon in Cv; lia)) as Hi.
+      destruct (Z.eqb_spec (mga_inv k M b) 0) as [E|N]; destruct (Z.eqb_spec (inv_mod B (V b) p) 0) as [E'|N']; try reflexivity; exfalso.
+      - apply N'. apply Hi. apply Zi. exact E.
+      - apply N. apply Zi. apply Hi. exact E'. }
     rewrite Ez. destruct (Z.eqb_spec (inv_mod B (V b) p) 0) as [E0|N0].
-    - split; [exact can0|]. split; [apply mga_V0|]. split.
-      + assert (b = 0) by (apply (mga_V_eq0 b Hb); apply (inv_mod_eq0_iff B p Hp (V b) Cv); exact E0). subst b.
-        rewrite mga_V0. rewrite Z.mul_0_r. rewrite Z.gcd_0_l. rewrite Z.abs_eq by lia.
-        rewrite (eqm_mul_n_r p). reflexivity.
-      + intros _. reflexivity.
+    - split; [exact can0|]. split; [apply mga_V0|]. split; [|intros _; reflexivity].
+      intros Hg. exfalso. apply (proj1 (inv_mod_eq0_iff B p Hp (V b) ltac:(unfold canon in Cv; lia)) E0). exact Hg.
     - destruct (mga_mul_ok k p HM a (mga_inv k M b) Ha Ci) as [Cm Vm]. split; [exact Cm|]. split; [rewrite Vm, Vi; reflexivity|].
       split.
-      + rewrite Vm. rewrite (mod_eqm p). replace (V a * V (mga_inv k M b) * V b) with (V a * (V (mga_inv k M b) * V b)) by ring.
-        rewrite Ei. reflexivity.
-      + intros ->. exfalso. apply N0. apply (inv_mod_eq0_iff B p Hp (V 0) (V_can k p HM 0 can0)). apply mga_V0.
+      + intros Hg. rewrite Vm. rewrite Z.mul_mod_idemp_l by lia.
+        replace (V a * V (mga_inv k M b) * V b) with (V a * (V (mga_inv k M b) * V b)) by ring.
+        rewrite <- Z.mul_mod_idemp_r by lia. rewrite (Ei Hg). rewrite Z.mul_1_r. apply Z.mod_small. exact Cva.
+      + intros Hg. exfalso. apply N0. apply (inv_mod_eq0_iff B p Hp (V b) ltac:(unfold canon in Cv; lia)). exact Hg.
   Qed.
 End MGAAny.
 
@@ -162,22 +171,22 @@ Section MGIAny.
   Local Notation can := (canon p).
 
   Theorem mgi_inv_any b : can b ->
-    can (mgi_inv k p b) /\ eqm p (mgi_inv k p b * b) (Z.gcd b p) /\ (mgi_inv k p b = 0 <-> b = 0).
+    can (mgi_inv k p b) /\ (Z.gcd b p = 1 -> (mgi_inv k p b * b) mod p = 1) /\ (mgi_inv k p b = 0 <-> Z.gcd b p <> 1).
   Proof.
-    intros Hb. unfold mgi_inv. destruct (inv_mod_any B p Hp b ltac:(unfold canon in Hb; lia)) as [Ci Ei].
-    split; [exact Ci|]. split; [exact Ei|]. apply (inv_mod_eq0_iff B p Hp b Hb).
+    intros Hb. unfold mgi_inv. destruct (inv_mod_any B p Hp b ltac:(unfold canon in Hb; lia)) as (Ci & Eu & _).
+    split; [exact Ci|]. split; [intros Hg; rewrite <- (Z.mod_1_l p) by lia; exact (Eu Hg)|].
+    apply (inv_mod_eq0_iff B p Hp b). unfold canon in Hb. lia.
   Qed.
   Theorem mgi_div_any a b : can a -> can b ->
-    can (mgi_div k p a b) /\ eqm p (mgi_div k p a b * b) (a * Z.gcd b p) /\ (b = 0 -> mgi_div k p a b = 0).
+    can (mgi_div k p a b) /\ (Z.gcd b p = 1 -> (mgi_div k p a b * b) mod p = a) /\ (Z.gcd b p <> 1 -> mgi_div k p a b = 0).
   Proof.
     intros Ha Hb. destruct (mgi_inv_any b Hb) as (Ci & Ei & Zi). unfold mgi_div. cbv zeta.
     destruct (Z.eqb_spec (mgi_inv k p b) 0) as [E0|N0].
-    - split; [unfold canon; lia|]. split; [|intros _; reflexivity].
-      assert (b = 0) by (apply Zi; exact E0). subst b. rewrite Z.mul_0_r. rewrite Z.gcd_0_l. rewrite Z.abs_eq by lia.
-      rewrite (eqm_mul_n_r p). reflexivity.
+    - split; [unfold canon; lia|]. split; [|intros _; reflexivity]. intros Hg. exfalso. apply (proj1 Zi E0). exact Hg.
     - unfold mgi_mul. split; [apply (mod_can k p Hp)|]. split.
-      + rewrite (mod_eqm p). replace (a * mgi_inv k p b * b) with (a * (mgi_inv k p b * b)) by ring. rewrite Ei. reflexivity.
-      + intros ->. exfalso. apply N0. apply Zi. reflexivity.
+      + intros Hg. rewrite Z.mul_mod_idemp_l by lia. replace (a * mgi_inv k p b * b) with (a * (mgi_inv k p b * b)) by ring.
+        rewrite <- Z.mul_mod_idemp_r by lia. rewrite (Ei Hg). rewrite Z.mul_1_r. apply Z.mod_small. exact Ha.
+      + intros Hg. exfalso. apply N0. apply Zi. exact Hg.
   Qed.
 End MGIAny.
 
@@ -196,19 +205,17 @@ Section MRAny.
   Let Hp : 1 < p < B. Proof. apply HM. Qed.
   Let Hp1 : (p * p1 + 1) mod B = 0. Proof. apply (p1_spec k p HM). Qed.
 
-  Theorem mr_inv_any a : can a -> can (mr_inv k M a) /\ eqm p (V (mr_inv k M a) * V a) (Z.gcd a p).
+  Theorem mr_inv_any a : can a ->
+    can (mr_inv k M a) /\ (Z.gcd a p = 1 -> (V (mr_inv k M a) * V a) mod p = 1) /\ (Z.gcd a p <> 1 -> mr_inv k M a = 0).
   Proof.
-    intros Ha. destruct (mr_fields k p HM) as (_ & _ & _ & _ & E3 & _). unfold mr_inv. cbn [g_p mr_mk].
-    destruct (inv_mod_any B p Hp a ltac:(unfold canon in Ha; lia)) as [Ci Ei]. set (i := inv_mod B a p) in *.
+    intros Ha. destruct (mr_fields k p HM) as (_ & _ & _ & _ & E3 & _).
+    destruct (inv_mod_any B p Hp a ltac:(unfold canon in Ha; lia)) as (Ci & _ & En).
     assert (C3 : can (g_r3 M)) by (rewrite E3; apply (mod_can k p Hp)).
-    destruct (mr_mul_ok k p HM i (g_r3 M) Ci C3) as [Cm Vm]. split; [exact Cm|].
-    rewrite Vm. rewrite (mr_V_fm k p HM i Ci), (mr_V_fm k p HM _ C3), (mr_V_fm k p HM a Ha). rewrite E3.
-    pose proof (BBi k p p1 Hp1) as HBB.
-    rewrite (mod_eqm p (fm i * _)). rewrite !from_mg_eqm. rewrite (mod_eqm p (B * B * B)).
-    replace (i * Binv B p p1 * (B * B * B * Binv B p p1) * (a * Binv B p p1))
-      with ((i * a) * B * ((B * Binv B p p1) * (B * Binv B p p1)) * Binv B p p1) by ring.
-    rewrite HBB. rewrite !Z.mul_1_r. replace (i * a * B * Binv B p p1) with (i * a * (B * Binv B p p1)) by ring.
-    rewrite HBB. rewrite Z.mul_1_r. exact Ei.
+    split; [|split].
+    - unfold mr_inv. cbn [g_p mr_mk]. apply (mr_mul_ok k p HM _ _ Ci C3).
+    - intros Hg. apply (mr_inv_ok k p HM a Ha Hg).
+    - intros Hg. unfold mr_inv. cbn [g_p mr_mk]. rewrite (En Hg). unfold mr_mul, mr_reduc. rewrite Z.mul_0_l. cbn [g_p g_p1 mr_mk].
+      rewrite (reduction_fm k p p1 Hp Hp1 0) by (pose proof (Bk_pos k); nia). apply from_mg_0.
   Qed.
   Theorem mr_div_any a b : can a -> can b -> can (mr_div k M a b) /\ can (mr_divin k M a b).
   Proof.
@@ -236,11 +243,12 @@ End MRAny.
 
 (* ================================================================== statements exported to Properties.v *)
 Definition Inv_mod_any_stmt : Prop := forall k c b, 1 < c < Bk k -> 0 <= b ->
-  (0 <= inv_mod (Bk k) b c < c /\ (inv_mod (Bk k) b c * b) mod c = Z.gcd b c mod c) /\
-  (b < c -> (inv_mod (Bk k) b c = 0 <-> b = 0)).
+  0 <= inv_mod (Bk k) b c < c /\ (Z.gcd b c = 1 -> (inv_mod (Bk k) b c * b) mod c = 1) /\
+  (inv_mod (Bk k) b c = 0 <-> Z.gcd b c <> 1).
 Lemma Inv_mod_any : Inv_mod_any_stmt.
 Proof.
-  intros k c b Hc Hb. split; [apply (inv_mod_any (Bk k) c Hc b Hb)|]. intros Hlt. apply (inv_mod_eq0_iff (Bk k) c Hc b). lia.
+  intros k c b Hc Hb. destruct (inv_mod_any (Bk k) c Hc b Hb) as (C & U & _). split; [exact C|].
+  split; [intros Hg; rewrite <- (Z.mod_1_l c) by lia; exact (U Hg)|]. apply (inv_mod_eq0_iff (Bk k) c Hc b Hb).
 Qed.
 
 Lemma nbits_Bk k : 2 ^ Z.of_nat (64 * 2 ^ k) = Bk k.
@@ -251,23 +259,27 @@ Definition Inv_div_any_stmt : Prop := forall k p, RecMod k p ->
   let M := mga_init_module k p in let V := mga_get_ruint k M in
   let R := mr_mk k p in let W := mr_convert k R in
   forall a b, canon p a -> canon p b ->
-  (canon p (mga_inv k M b) /\ (V (mga_inv k M b) * V b) mod p = Z.gcd (V b) p mod p /\ (mga_inv k M b = 0 <-> b = 0)) /\
-  (canon p (mga_div k M a b) /\ (V (mga_div k M a b) * V b) mod p = (V a * Z.gcd (V b) p) mod p /\ (b = 0 -> mga_div k M a b = 0)) /\
-  (canon p (mgi_inv k p b) /\ (mgi_inv k p b * b) mod p = Z.gcd b p mod p /\ (mgi_inv k p b = 0 <-> b = 0)) /\
-  (canon p (mgi_div k p a b) /\ (mgi_div k p a b * b) mod p = (a * Z.gcd b p) mod p /\ (b = 0 -> mgi_div k p a b = 0)) /\
-  (canon p (mr_inv k R b) /\ (W (mr_inv k R b) * W b) mod p = Z.gcd b p mod p) /\
-  canon p (mr_div k R a b) /\ canon p (mr_divin k R a b).
+  (canon p (mga_inv k M b) /\ (Z.gcd (V b) p = 1 -> (V (mga_inv k M b) * V b) mod p = 1) /\ (mga_inv k M b = 0 <-> Z.gcd (V b) p <> 1)) /\
+  (canon p (mga_div k M a b) /\ (Z.gcd (V b) p = 1 -> (V (mga_div k M a b) * V b) mod p = V a) /\ (Z.gcd (V b) p <> 1 -> mga_div k M a b = 0)) /\
+  (canon p (mgi_inv k p b) /\ (Z.gcd b p = 1 -> (mgi_inv k p b * b) mod p = 1) /\ (mgi_inv k p b = 0 <-> Z.gcd b p <> 1)) /\
+  (canon p (mgi_div k p a b) /\ (Z.gcd b p = 1 -> (mgi_div k p a b * b) mod p = a) /\ (Z.gcd b p <> 1 -> mgi_div k p a b = 0)) /\
+  (canon p (mr_inv k R b) /\ (Z.gcd b p = 1 -> (W (mr_inv k R b) * W b) mod p = 1) /\ (Z.gcd b p <> 1 -> mr_inv k R b = 0)) /\
+  canon p (mr_div k R a b) /\ canon p (mr_divin k R a b) /\ (Z.gcd b p <> 1 -> mr_div k R a b = 0 /\ mr_divin k R a b = 0).
 Lemma Inv_div_any : Inv_div_any_stmt.
 Proof.
   intros k p HM M V R W a b Ha Hb. subst M V R W. pose proof (proj2 HM) as Hp.
   destruct (mga_inv_any k p HM b Hb) as (C1 & _ & E1 & Z1). destruct (mga_div_any k p HM a b Ha Hb) as (C2 & _ & E2 & Z2).
   destruct (mgi_inv_any k p Hp b Hb) as (C3 & E3 & Z3). destruct (mgi_div_any k p Hp a b Ha Hb) as (C4 & E4 & Z4).
-  destruct (mr_inv_any k p HM b Hb) as (C5 & E5). destruct (mr_div_any k p HM a b Ha Hb) as (C6 & C7).
+  destruct (mr_inv_any k p HM b Hb) as (C5 & E5 & Z5). destruct (mr_div_any k p HM a b Ha Hb) as (C6 & C7).
   split; [split; [exact C1 | split; [exact E1 | exact Z1]]|].
   split; [split; [exact C2 | split; [exact E2 | exact Z2]]|].
   split; [split; [exact C3 | split; [exact E3 | exact Z3]]|].
   split; [split; [exact C4 | split; [exact E4 | exact Z4]]|].
-  split; [split; [exact C5 | exact E5]|]. split; [exact C6 | exact C7].
+  split; [split; [exact C5 | split; [exact E5 | exact Z5]]|]. split; [exact C6|]. split; [exact C7|].
+  intros Hg. unfold mr_div, mr_divin. rewrite (Z5 Hg). destruct (mr_fields k p HM) as (_ & E1' & _).
+  destruct (p1_spec k p HM) as [_ Hp1].
+  unfold mr_mul, mr_reduc. rewrite Z.mul_0_r. cbn [g_p g_p1 mr_mk].
+  rewrite (reduction_fm k p _ Hp Hp1 0) by (pose proof (Bk_pos k); nia). split; apply from_mg_0.
 Qed.
 
 (* the two variants agree after conversion out, on EVERY stored element of every operation *)
